@@ -181,10 +181,10 @@ Section Instr.
     repeat rewrite andb_true_iff in Hm. destruct Hm as (Hc & Ht & Hd).
     exists c, t. repeat split; try assumption.
     - simpl. rewrite alpha_alnum by assumption. assumption.
-    - unfold mnem_ok. rewrite Hc. simpl andb.
+    - unfold mnem_ok. rewrite Hc. rewrite andb_true_l.
       assert (existsb (Ascii.eqb ",") (c :: t) = false) as Hx.
       { apply alnum_no_comma. simpl. rewrite alpha_alnum by assumption. assumption. }
-      rewrite Hx. simpl orb. exact Hd.
+      rewrite Hx. rewrite orb_false_l. exact Hd.
   Qed.
 
   Lemma body_tail_soft : soft_head (body ++ tail).
@@ -227,7 +227,7 @@ Section Instr.
       { apply after_op_rest; assumption. }
       rewrite parse_operand_render by assumption.
       rewrite after_op_delim by assumption. simpl negb. cbv iota.
-      rewrite (parse_tail_render (trail lay) (comment lay) Ht Hc ops' (tl (lops lay)) 3 (L wb));
+      unfold tail. rewrite (parse_tail_render (trail lay) (comment lay) Ht Hc ops' (tl (lops lay)) 3 (L wb));
         [|assumption|simpl in Hlen; lia|assumption|assumption].
       assert (Hbad : forall l, existsb is_bad (map RGood l) = false) by (induction l; simpl; auto).
       assert (Hbare : forall l, existsb is_bare (map RGood l) = false) by (induction l; simpl; auto).
@@ -289,3 +289,146 @@ Proof.
   apply Nat.leb_le in Hlen.
   unfold parse_line, render_line. rewrite L_S. apply parse_chars_render; assumption.
 Qed.
+
+(* ---------------------------------------------------------------- comment lines *)
+Theorem comment_line_proof lead_ slashes text :
+  blanks lead_ = true -> allc is_textc text = true ->
+  parse_line (render_comment_line lead_ slashes text) = Parsed PComment.
+Proof.
+  intros Hl Ht. unfold parse_line, render_comment_line. rewrite L_S.
+  destruct (comment_end (Some (slashes, text)) Ht) as (He1 & He2 & Hs).
+  unfold parse_chars. rewrite skipL by (auto using sep_start_stops_ws).
+  destruct (render_comment (Some (slashes, text))) as [|c r] eqn:E.
+  - destruct slashes; discriminate.
+  - rewrite He1, He2. reflexivity.
+Qed.
+
+(* ---------------------------------------------------------------- label lines *)
+Lemma label_tail_render name w2 c :
+  blanks w2 = true -> valid_comment c = true ->
+  label_tail name (L w2 ++ render_comment c) = Parsed (PLabel (S_ name)).
+Proof.
+  intros Hw Hc. destruct (comment_end c Hc) as (He1 & He2 & Hs).
+  unfold label_tail. rewrite skipL by (auto using sep_start_stops_ws).
+  rewrite He1, He2. reflexivity.
+Qed.
+
+Lemma colon_tail_soft w2 c : blanks w2 = true -> valid_comment c = true -> soft_head (L w2 ++ render_comment c).
+Proof. intros. apply soft_ws_app; [assumption|]. apply comment_soft. assumption. Qed.
+
+Theorem label_line_proof lead_ name w1 w2 c :
+  blanks lead_ = true -> valid_label name = true -> blanks w1 = true -> blanks w2 = true -> valid_comment c = true ->
+  parse_line (render_label_line lead_ name w1 w2 c) = Parsed (PLabel name).
+Proof.
+  intros Hl Hn H1 H2 Hc. unfold parse_line, render_label_line. rewrite L_S.
+  unfold valid_label in Hn. destruct (L name) as [|x t] eqn:En; [discriminate|].
+  apply andb_true_iff in Hn. destruct Hn as [Hx Ht].
+  unfold parse_chars. norm.
+  rewrite skipL; [|assumption|simpl; auto using lblfirst_not_ws].
+  cbv zeta iota beta.
+  assert (at_end (x :: t ++ L w1 ++ ":" :: L w2 ++ render_comment c) = false) as Hae.
+  { unfold at_end. rewrite lblfirst_not_hash, lblfirst_not_slash by assumption. reflexivity. }
+  rewrite Hae, Hx.
+  assert (stops is_lblrest (L w1 ++ ":" :: L w2 ++ render_comment c)) as Hst.
+  { destruct (L w1) as [|y ys] eqn:E1; simpl; [reflexivity|].
+    unfold blanks, allc in H1. rewrite E1 in H1. simpl in H1. apply andb_true_iff in H1.
+    apply ws_not_lblrest. tauto. }
+  rewrite span_app by assumption.
+  assert (hd_eqb "@" (L w1 ++ ":" :: L w2 ++ render_comment c) = false) as Hat.
+  { destruct (L w1) as [|y ys] eqn:E1; simpl; [reflexivity|].
+    unfold blanks, allc in H1. rewrite E1 in H1. simpl in H1. apply andb_true_iff in H1.
+    apply ws_not_at. tauto. }
+  rewrite Hat. rewrite skipL by (assumption || reflexivity).
+  simpl hd_eqb. simpl tl. cbv iota.
+  rewrite (soft_not ":") by (auto using ws_not_colon, colon_tail_soft).
+  rewrite label_tail_render by assumption. rewrite <- En, S_L. reflexivity.
+Qed.
+
+Theorem numeric_label_line_proof lead_ name w1 w2 c :
+  blanks lead_ = true -> valid_numlabel name = true -> blanks w1 = true -> blanks w2 = true -> valid_comment c = true ->
+  parse_line (render_label_line lead_ name w1 w2 c) = Parsed (PLabel name).
+Proof.
+  intros Hl Hn H1 H2 Hc. unfold parse_line, render_label_line. rewrite L_S.
+  unfold valid_numlabel in Hn. destruct (L name) as [|x t] eqn:En; [discriminate|].
+  pose proof Hn as Hall. simpl in Hn. apply andb_true_iff in Hn. destruct Hn as [Hx Ht].
+  unfold parse_chars. norm.
+  rewrite skipL; [|assumption|simpl; auto using digit_not_ws].
+  cbv zeta iota beta.
+  assert (at_end (x :: t ++ L w1 ++ ":" :: L w2 ++ render_comment c) = false) as Hae.
+  { unfold at_end. rewrite digit_not_hash, digit_not_slash by assumption. reflexivity. }
+  rewrite Hae, digit_not_lblfirst, Hx by assumption.
+  rewrite app_comm_cons.
+  assert (stops is_digit (L w1 ++ ":" :: L w2 ++ render_comment c)) as Hst.
+  { destruct (L w1) as [|y ys] eqn:E1; simpl; [reflexivity|].
+    unfold blanks, allc in H1. rewrite E1 in H1. simpl in H1. apply andb_true_iff in H1.
+    apply brk_not_digit. apply ws_brk. tauto. }
+  rewrite span_app by assumption.
+  rewrite skipL by (assumption || reflexivity).
+  change (one_of "bBfF" ":") with false. cbv iota. simpl hd_eqb. simpl tl. cbv iota.
+  rewrite label_tail_render by assumption. rewrite <- En, S_L. reflexivity.
+Qed.
+
+(* ---------------------------------------------------------------- directive lines *)
+Theorem directive_line_proof lead_ name rest :
+  blanks lead_ = true -> valid_dirname name = true -> valid_dirrest rest = true ->
+  parse_line (render_directive_line lead_ name rest) = Parsed (PDirective name).
+Proof.
+  intros Hl Hn Hr. unfold parse_line, render_directive_line. rewrite L_S.
+  unfold valid_dirname in Hn. destruct (L name) as [|x t] eqn:En; [discriminate|].
+  rewrite <- En in Hn.
+  (* facts about the rest *)
+  assert (Hrest : soft_head (L rest) /\ end_ok (L rest) = true /\ existsb is_quote (L rest) = false
+                  /\ hd_eqb ":" (skip (L rest)) = false).
+  { unfold valid_dirrest in Hr. destruct (L rest) as [|y ys] eqn:Er.
+    - repeat split; reflexivity.
+    - repeat rewrite andb_true_iff in Hr. destruct Hr as (Hy & Hall & Hq & Hcol).
+      repeat split.
+      + simpl. auto.
+      + exact Hall.
+      + apply negb_true_iff. exact Hq.
+      + apply negb_true_iff. exact Hcol. }
+  destruct Hrest as (Hsoft & Hend & Hq & Hcol).
+  unfold parse_chars. norm.
+  rewrite skipL by (assumption || reflexivity).
+  cbv zeta iota beta.
+  change (at_end ("." :: ?x)) with false. cbv iota.
+  change (is_lblfirst ".") with true. cbv iota.
+  rewrite (app_comm_cons t (L rest) x), <- En. rewrite span_app; [|eapply forallb_impl; [|exact Hn]; exact dirname_lblrest
+                     |apply soft_stops; auto using ws_not_lblrest].
+  rewrite (soft_not "@") by (auto using ws_not_at).
+  rewrite Hcol. change (Ascii.eqb "." ".") with true. cbv iota.
+  unfold parse_directive.
+  assert (skip (L name ++ L rest) = L name ++ L rest) as Hsk.
+  { apply skip_stop. rewrite En. simpl. rewrite En in Hn. simpl in Hn. apply andb_true_iff in Hn.
+    apply dirname_not_ws. tauto. }
+  rewrite Hsk.
+  rewrite span_app; [|assumption|apply soft_stops; auto using ws_not_dirname].
+  rewrite En. rewrite Hq, Hend. simpl. rewrite <- En, S_L. reflexivity.
+Qed.
+
+(* ---------------------------------------------------------------- exclusivity *)
+Definition kind_comment (o : outcome) : Prop := o = Parsed PComment.
+Definition kind_label (o : outcome) : Prop := exists n, o = Parsed (PLabel n).
+Definition kind_directive (o : outcome) : Prop := exists n, o = Parsed (PDirective n).
+Definition kind_instruction (o : outcome) : Prop := exists m ops, o = Parsed (PInstr m ops).
+
+Theorem classify_exclusive_proof s p : parse_line s = Parsed p ->
+  let o := parse_line s in
+  (kind_comment o /\ ~ kind_label o /\ ~ kind_directive o /\ ~ kind_instruction o)
+  \/ (~ kind_comment o /\ kind_label o /\ ~ kind_directive o /\ ~ kind_instruction o)
+  \/ (~ kind_comment o /\ ~ kind_label o /\ kind_directive o /\ ~ kind_instruction o)
+  \/ (~ kind_comment o /\ ~ kind_label o /\ ~ kind_directive o /\ kind_instruction o).
+Proof.
+  intro H. cbv zeta. rewrite H. unfold kind_comment, kind_label, kind_directive, kind_instruction.
+  destruct p as [|n|n|m ops].
+  - left. repeat split; try reflexivity; intros (? & E); try destruct E as (? & E); discriminate.
+  - right; left. repeat split; try (eexists; reflexivity); try discriminate;
+      intros (? & E); try destruct E as (? & E); discriminate.
+  - right; right; left. repeat split; try (eexists; reflexivity); try discriminate;
+      intros (? & E); try destruct E as (? & E); discriminate.
+  - right; right; right. repeat split; try (eexists; eexists; reflexivity); try discriminate;
+      intros (? & E); discriminate.
+Qed.
+
+(* the four renderers produce lines of four different kinds: an instruction line is never a label etc.
+   follows from the four round-trip theorems (each gives the outcome) *)
